@@ -57,3 +57,18 @@ Theorem C27_kmerge_conflict_entry :
   forall b l r k e, In (k, e) (km_conf (kmerge b l r)) -> e = (sget k b, sget k l, sget k r).
 Proof. exact kmerge_conflict_entry. Qed.
 Print Assumptions C27_kmerge_conflict_entry.
+
+(* ---- round 4: secondary index of a keyless table ---- *)
+Theorem C27_index_mirrors_store :
+  forall (hash : row -> N), (forall a b, hash a = hash b -> a = b) ->
+  forall ops, keyed27 hash (fst (trun hash ops ([], []))) /\ imirror (trun hash ops ([], [])).
+Proof. exact index_mirrors_store. Qed.
+Print Assumptions C27_index_mirrors_store.
+
+Theorem C27_index_entry_iff_present :
+  forall (hash : row -> N), (forall a b, hash a = hash b -> a = b) ->
+  forall ops r,
+  let st := trun hash ops ([], []) in
+  imem (ival r) (hash r) (snd st) = true <-> 0 < card_of hash (fst st) r.
+Proof. exact index_entry_iff_present. Qed.
+Print Assumptions C27_index_entry_iff_present.
